@@ -474,9 +474,46 @@ static void run_stdin(void)
    }
 }
 
+/* boost: directed search for |out| > 1 in binary32 where the 2^-22 boost `a += a*2.4e-7f` has the least margin: two-sample
+   frames {x, maxval} (one excursion, no ramp) with maxval at / just below 2, just above 1, and random in (1,2]; x sweeping the
+   floats just below maxval and around the vertex 1/(2a) of x + a*x*x.  level scales the sweep. */
+static void run_boost(int level)
+{
+   long n = 0, bad = 0; double worst = 0; uint32_t mu, xu; uint64_t s = 12345; long k; int pass;
+   uint32_t nm = level ? 3000 : 400, nx = level ? 30000 : 4000; long nr = level ? 300000 : 30000;
+   for (pass = 0; pass < 3; pass++) {
+      long cnt = pass < 2 ? (long)nm : nr;
+      for (k = 0; k < cnt; k++) {
+         uint32_t lo, hi; float m, a, v;
+         if (pass == 0) mu = 0x40000000u - (uint32_t)k; else if (pass == 1) mu = 0x3f800001u + (uint32_t)k;
+         else { s = s * 6364136223846793005ULL + 1442695040888963407ULL; mu = 0x3f800001u + (uint32_t)((s >> 33) % 0x7fffffu); if (mu > 0x40000000u) mu = 0x40000000u; }
+         m = u2f(mu); hi = mu; lo = mu - (pass < 2 ? nx : 300);
+         for (xu = hi; xu > lo; xu--) {
+            int sg; for (sg = 0; sg < 2; sg++) {
+               float b[2], mem[1] = {0}; int i;
+               b[0] = sg ? -u2f(xu) : u2f(xu); b[1] = sg ? -m : m;
+               { float in0 = b[0], in1 = b[1];
+                 opus_pcm_soft_clip(b, 2, 1, mem); n++;
+                 for (i = 0; i < 2; i++) { if (fabs(b[i]) > worst) worst = fabs(b[i]);
+                    if (!(fabsf(b[i]) <= 1.f)) { float xin[2]; float m0 = 0; char obs[160]; xin[0] = in0; xin[1] = in1; bad++;
+                       snprintf(obs, sizeof obs, "out[%d]=%.9g (bits %08x) for x=%.9g maxval=%.9g", i, b[i], f2u(b[i]), in0, in1);
+                       witness("softclip-bounded", 2, 1, &m0, xin, "every output sample in [-1, 1]", obs, "the soft clipper must map any finite input to samples in [-1, 1] (boost margin)"); } } }
+            } }
+         if (pass == 2) { a = (m - 1) / (m * m); v = 1.f / (2 * a);
+            if (v < m) { uint32_t vu = f2u(v); for (xu = vu + 150; xu > vu - 150; xu--) if (u2f(xu) <= m) {
+               float b[2], mem[1] = {0}, in0 = u2f(xu); b[0] = in0; b[1] = m; opus_pcm_soft_clip(b, 2, 1, mem); n++;
+               if (!(fabsf(b[0]) <= 1.f) || !(fabsf(b[1]) <= 1.f)) { float xin[2]; float m0 = 0; char obs[160]; xin[0] = in0; xin[1] = m; bad++;
+                  snprintf(obs, sizeof obs, "out=%.9g,%.9g for x=%.9g maxval=%.9g", b[0], b[1], in0, m);
+                  witness("softclip-bounded", 2, 1, &m0, xin, "every output sample in [-1, 1]", obs, "the soft clipper must map any finite input to samples in [-1, 1] (boost margin)"); } } } }
+      }
+   }
+   printf("STAT cases=%ld above_one=%ld worst_abs_out=%.9g witnesses=%ld\n", n, bad, worst, n_wit);
+}
+
 int main(int argc, char **argv)
 {
    vinstall_traps();
+   if (argc >= 3 && !strcmp(argv[1], "boost")) { run_boost(atoi(argv[2])); return 0; }
    if (argc >= 2 && !strcmp(argv[1], "stdin")) { run_stdin(); return 0; }
    if (argc >= 5 && !strcmp(argv[1], "gainsearch")) gain_tol = atof(argv[4]);
    if (argc >= 2 && !strcmp(argv[1], "gaincorpus")) { corpus_mode = 1; if (argc >= 3) gain_tol = atof(argv[2]); run_gainsearch(0xC0FFEEULL, 12); return 0; }
